@@ -232,9 +232,13 @@ def fresh_base():
     return "mila-fs-%d-%s-%d" % (os.getpid(), os.urandom(3).hex(), _counter[0])
 
 
+# = harness/src/h_fs.rs::layer_dir_name: sibling directories that are string prefixes of one another in both orders (seeded change C13-9)
+LAYER_DIRS = ["romfs", "romfs_patch", "rom", "romfs_patch2"]
+
+
 def abs_layer(base, i):
     """Absolute path of layer i of a case with this base (what the harness will create), without the leading '/'."""
-    return os.path.join(os.path.realpath(tempfile.gettempdir()), base, "L%d" % i).lstrip("/")
+    return os.path.join(os.path.realpath(tempfile.gettempdir()), base, LAYER_DIRS[i] if i < 4 else "rom%d" % i).lstrip("/")
 
 
 class Codec:
@@ -325,6 +329,8 @@ def render_case(c, base, codec=CODEC):
             toks += ["W", str(o[1]), L(o[2]), B(o[3])]
         elif o[0] == "L":
             toks += ["L", str(o[1]), L(o[2]), o[3]]
+        elif o[0] == "H":        # set-up: hard link o[3] -> o[2] inside layer o[1]
+            toks += ["H", str(o[1]), L(o[2]), L(o[3])]
         elif o[0] == "TR":
             toks += ["TR", str(o[1]), L(o[2]), str(o[3])]
         elif o[0] == "WA":
@@ -361,6 +367,9 @@ def parse_case(line):
             i += 4
         elif k == "L":
             ops.append(("L", int(t[i + 1]), unL(t[i + 2]), t[i + 3]))
+            i += 4
+        elif k == "H":
+            ops.append(("H", int(t[i + 1]), unL(t[i + 2]), unL(t[i + 3])))
             i += 4
         elif k == "TR":
             ops.append(("TR", int(t[i + 1]), unL(t[i + 2]), int(t[i + 3])))
@@ -551,6 +560,16 @@ def check_history(c, impl_out):
         where = "op %d %s(%r%s)" % (n, kind, path, ", localized" if loc else "")
         if ret == "panic":
             return where + ": panicked"
+        if kind == "H":      # set-up step (hard link inside layer o[1]): the walk must show a second file with the same bytes
+            want = [dict(x) for x in snap]
+            dcomps = o[3].split("/")
+            for k2 in range(1, len(dcomps)):
+                want[o[1]].setdefault("/".join(dcomps[:k2]), None)
+            want[o[1]][o[3]] = snap[o[1]].get(o[2])
+            if ret != "link:ok" or new != want:
+                return where + ": the hard link could not be set up (%s)" % ret
+            snap = new
+            continue
         if len(new) != len(snap):
             return where + ": number of layers changed"
         # lower layers are never touched, by any call
@@ -999,6 +1018,61 @@ def case_variant_cases(rng, tier, stream="letter-case"):
     return out
 
 
+# ----------------------------------------------------------------------------- hard links (seeded change C13-10)
+# Several names of ONE file (same st_dev / st_ino) are several entries: a listing that de-duplicates by inode loses all but the first.
+# H ops (set-up, not API calls) link an existing file of a layer under a new name in the same directory, in another directory of the layer or
+# in a new directory; afterwards only listings and queries (a write to a linked name would change every name on disk, which the tree model -
+# a hard link is a second file with the same bytes - does not follow).
+def hard_link_cases(rng, tier, stream="hard-links"):
+    n = 120 if tier == "quick" else 1200
+    out = []
+    k = 0
+    while len(out) < n:
+        k += 1
+        game, lang = SUPPORTED[k % 5], (k // 5) % 8
+        files, _ = case_universe(rng, game, lang)
+        layers = [build_layer(rng, files, [b"", b"a", b"bc"], rng.choice([3, 5, 8])) for _ in range(rng.choice([1, 2, 2, 3]))]
+        snap = initial_snapshot(FsCase(game, lang, layers, []))
+        ops = []
+        for j in range(rng.choice([1, 2, 3])):
+            li = rng.randrange(len(layers))
+            lay = snap[li]
+            srcs = sorted(p for p, c in lay.items() if c is not None)
+            if not srcs:
+                continue
+            src = rng.choice(srcs)
+            dirs = [""] + sorted(p for p, c in lay.items() if c is None) + ["hl"]
+            d = rng.choice([src.rpartition("/")[0], src.rpartition("/")[0], rng.choice(dirs)])
+            base_name = src.rpartition("/")[2]
+            dst = (d + "/" if d else "") + rng.choice(["0", "zz", "A"]) + "%d_" % j + base_name
+            comps = dst.split("/")
+            if dst in lay or any(lay.get("/".join(comps[:q])) is not None for q in range(1, len(comps)) if "/".join(comps[:q]) in lay):
+                continue
+            for q in range(1, len(comps)):
+                lay.setdefault("/".join(comps[:q]), None)
+            lay[dst] = lay[src]
+            ops.append(("H", li, src, dst))
+        if not ops:
+            continue
+        listed = sorted(set([""] + [p for lay in snap for p, c in lay.items() if c is None]))
+        present = sorted(set(p for lay in snap for p, c in lay.items() if c is not None))
+        for _ in range(rng.choice([4, 8, 12])):
+            r = rng.random()
+            d = rng.choice(listed)
+            if r < 0.4:
+                ops.append(("L", 0, d, rng.choice(["PA", "PA", "PX", "PS"])))
+            elif r < 0.65:
+                ops.append(("L", 0, d, rng.choice(["PE", "PR"]) + L(rng.choice(EXTS))))
+            elif r < 0.8:
+                ops.append(("S", 0, d))
+            elif r < 0.9:
+                ops.append(("R", 0, rng.choice(present)))
+            else:
+                ops.append((rng.choice(["E", "F", "V"]), 0, rng.choice(present)))
+        out.append(Case(render_case(FsCase(game, lang, layers, ops), fresh_base()), stream))
+    return out
+
+
 def exhaustive_cases(tier, stream="exhaustive-small"):
     """every history up to length 2 (thorough: 3) over a 13-call alphabet on three colliding paths, from five two-layer states"""
     import itertools
@@ -1028,7 +1102,30 @@ def size_limit_cases(stream="size-limit-F21"):
     return out
 
 
+def _links_valid(c):
+    """every H op (hard-link set-up) still names an existing file of an existing layer and a free destination, earlier links included"""
+    snap = initial_snapshot(c)
+    for o in c.ops:
+        if o[0] != "H":
+            continue
+        if o[1] >= len(snap) or snap[o[1]].get(o[2]) is None or o[3] in snap[o[1]]:
+            return False
+        comps = o[3].split("/")
+        if any(snap[o[1]].get("/".join(comps[:q])) is not None for q in range(1, len(comps))):
+            return False
+        for q in range(1, len(comps)):
+            snap[o[1]].setdefault("/".join(comps[:q]), None)
+        snap[o[1]][o[3]] = snap[o[1]][o[2]]
+    return True
+
+
 def shrink_case(case):
+    for cand in _shrink_case(case):
+        if " H " not in cand.line or _links_valid(parse_case(cand.line)[1]):
+            yield cand
+
+
+def _shrink_case(case):
     base, c = parse_case(case.line)
     # fewer operations
     for i in range(len(c.ops) - 1, -1, -1):
